@@ -119,13 +119,8 @@ theorem warpRemoteTransfer_reqs {cfg : Cfg} {c c' : Ctx} {token hook : Bytes} {d
 theorem bankMsgSend_reqs {cfg : Cfg} {c c' : Ctx} {to denom : String} {amt : Int}
     (h : bankMsgSend cfg c to denom amt = .ok c') : c'.reqs = c.reqs := by
   unfold bankMsgSend at h
-  split at h
-  · cases h
-  · split at h
-    · cases h
-    · split at h
-      · cases h
-      · exact Ctx.send_reqs h
+  repeat' (first | (cases h; done) | split at h)
+  exact Ctx.send_reqs h
 
 /-! ### external calls are only ever registered through `Ctx.call` -/
 
@@ -169,13 +164,8 @@ theorem warpRemoteTransfer_calls {cfg : Cfg} {c c' : Ctx} {token hook : Bytes} {
 theorem bankMsgSend_calls {cfg : Cfg} {c c' : Ctx} {to denom : String} {amt : Int}
     (h : bankMsgSend cfg c to denom amt = .ok c') : c'.calls = c.calls := by
   unfold bankMsgSend at h
-  split at h
-  · cases h
-  · split at h
-    · cases h
-    · split at h
-      · cases h
-      · exact Ctx.send_calls h
+  repeat' (first | (cases h; done) | split at h)
+  exact Ctx.send_calls h
 
 /-- No registered call was failed by the oracle. -/
 def Ctx.Clean (φ : Faults) (c : Ctx) : Prop := ∀ s k, (s, k) ∈ c.calls → φ s k = false
